@@ -29,6 +29,9 @@ LEVEL_TEXT = (
     "fewer / equal / more than workers on real pebble pools, and all 6 completion orders of 3 rows forced through a "
     "sleeping wrapper around the shipped worker. Every row must equal an independent simulation of a fresh model with "
     "that row's values, under the input row's label and position; failed rows must be all-NaN placeholders."
+    " Added: mc.protocol / mc.protocol_time_course, the y0= argument of every scan, a closed pair with a "
+    "conserved total, models with a readout (also for failing rows), tables with the initial-value column "
+    "first, integer-typed tables, 17 / 40 rows on 1, 3, 16 workers. "
 )
 LEVEL_NOTE = "the OS schedule of the worker processes is not owned: completion orders are forced by delays (realised orders are measured and reported), worker counts are real; the per-row reference uses the same Simulator (C04/C15 check the Simulator itself)"
 RULE = (
